@@ -18,6 +18,60 @@ CLAIMED = {
     ),
 }
 
+CLAIMED.update({
+    "C02": dict(
+        category="proof",
+        text="Theorems for every executor, graph (cyclic and gated included) and step: an asynchronous superstep is invariant under any "
+             "permutation of the completion order; on a non-failing step SyncRunner's and AsyncRunner's supersteps are equal (state and calls); "
+             "a failing step reports the same first-in-ready-order error under both. Tied to /repo by running each generated program "
+             "under SyncRunner, AsyncRunner with adversarial completion orders x max_concurrency, and permuted node lists.",
+        design_ref="DESIGN.md section 5 C02",
+        note="Step-level theorems (lifted to runs by the loop characterisation of C04); node-list-permutation invariance and the partial-value "
+             "inclusion on failing runs are checked by the differential oracle, not proved. Model: coq/theories/Engine.v.",
+        technique="Coq proof (commutation of state updates, gmap extensionality) + adversarial-schedule differential runs",
+    ),
+    "C03": dict(
+        category="proof",
+        text="Theorems about the scheduler's ready list in EVERY state of EVERY graph: a gated node is scheduled only if a controlling gate's "
+             "standing decision names it or a default-open controlling gate has not executed; a ready gate holds back its targets; a standing "
+             "non-END decision is fresh (stale ones are cleared first); END is terminal. Tied to /repo by exact call-sequence correspondence and "
+             "an oracle over the implementation's own NodeStart/RouteDecision events.",
+        design_ref="DESIGN.md section 5 C03",
+        note="The exactly-the-selected-branches corollary for acyclic graphs is checked by the oracle (exact-branches rule), not proved.",
+        technique="Coq proof (characterisation of get_ready_nodes / stale-decision clearing) + event-stream oracle",
+    ),
+    "C04": dict(
+        category="proof",
+        text="Theorems for every graph/runner/executor: a run performs at most max_iterations supersteps; COMPLETED means quiescence within the "
+             "budget, InfiniteLoopError means exactly `fuel` supersteps ran, work remains, and the carried state is the state reached. "
+             "The exact iteration counts of the schematic loop families are decided against the sequential while / do-while spec "
+             "(SpecWhile.v) on the implementation for all m<=4, N<=12, both gate kinds, both exits, budgets need-1/need/need+1.",
+        design_ref="DESIGN.md section 5 C04",
+        note="partial: the iteration-count theorems C04_L1/C04_L2 of the design are not proved in Coq in this revision (concrete instances "
+             "are, by vm_compute); the while-loop equivalence is established per generated loop by the spec oracle.",
+        technique="Coq proof (induction on fuel) + spec oracle (sequential loop) + differential correspondence",
+    ),
+    "C16": dict(
+        category="proof",
+        text="Theorems: with entry points only active nodes are ever scheduled (every state); a returned key is a declared output (or a "
+             "selected name) holding the state's value and never an ordering sentinel. Tied to /repo by runs over entry-point sets x "
+             "graph/run-time selections x on_missing, including failed results; the active set is computed by the spec (reachability).",
+        design_ref="DESIGN.md section 5 C16",
+        note="on_missing policies and nested exposure are checked differentially (model collect_selected), not proved.",
+        technique="Coq proof (filter characterisation) + differential correspondence",
+    ),
+    "C17": dict(
+        category="proof",
+        text="Safety theorems for every state of every graph: a scheduled waiter's names exist, no other producer of them is scheduled in the "
+             "same step, and a waiter that ran before sees a strictly newer version. Liveness: every emission strictly increases the signal's "
+             "version (after the fix recorded in known_findings.json) and the ready list is complete. Tied to /repo by an event-stream oracle "
+             "and exact call-sequence correspondence incl. multi-producer signals and two-signal waiters in cycles.",
+        design_ref="DESIGN.md section 5 C17",
+        note="'some producer has completed' (provenance of values) is checked by the event oracle, not proved.",
+        technique="Coq proof (ready-list characterisation, version arithmetic) + event-stream oracle",
+    ),
+})
+
 REASON_TODO = "not claimed yet: model/theorems for this property are not built in this revision (see DESIGN.md section 10)"
 
 
